@@ -142,6 +142,17 @@ func classify(mod *ir.Module, fn *ir.Function) map[uint32]*candidateInfo {
 		if !allMembersDecomposable(mod, st) {
 			continue
 		}
+		// The member locals inherit the initialiser member by member, which
+		// decompose can only do for a Compose; an all-zero initialiser needs
+		// none. Any other initialiser (a constant, a call result) would be
+		// lost, so such a local is left alone.
+		if local.Init != nil && int(*local.Init) < len(fn.Expressions) {
+			switch fn.Expressions[*local.Init].Kind.(type) {
+			case ir.ExprCompose, ir.ExprZeroValue:
+			default:
+				continue
+			}
+		}
 		hh := ir.ExpressionHandle(h)
 		lvHandleMap[hh] = lv.Variable
 		if _, exists := candidates[lv.Variable]; !exists {
